@@ -272,7 +272,9 @@ func runC01(c *Ctx) {
 		// fields), for which restricted does NOT imply baseline: the verdict is the ENFORCE policy's, whatever the others say
 		if a.Obj.Pod != nil && a.Syn == false && r.Chance(1, 5) {
 			v := pick(r, []string{"latest", "v1.32", "v1.29", "v1.26", "v1.25", "v1.24", "v1.22", "v1.19"})
-			lv := func() string { return pick(r, []string{"baseline", "restricted", "baseline", "restricted", "privileged"}) }
+			lv := func() string {
+				return pick(r, []string{"baseline", "restricted", "baseline", "restricted", "privileged"})
+			}
 			a.NSLabels = map[string]string{api.EnforceLevelLabel: lv(), api.EnforceVersionLabel: v, api.AuditLevelLabel: lv(), api.AuditVersionLabel: v, api.WarnLevelLabel: lv(), api.WarnVersionLabel: v}
 			base := versionSensitivePod(r, a.Obj.Pod.Name)
 			base.Namespace = a.Obj.Pod.Namespace
